@@ -592,7 +592,56 @@ def r19(ctx):
         raise AnalysisBroken('C05.R19: only %d combinations of divisors found in derive' % n)
 
 
+def r20(ctx):
+    ctx.rule('C05.R20', 'the weekday byte of the 4 byte dates takes no part in the date: in DateTimeDataType::readSymbols the '
+             'statement selected by length == 4 and position == 2 leaves the iteration at once - from it no store into a '
+             'variable that lives across iterations (the previous symbol, the minutes) is reachable before the loop '
+             'increment - because the year byte 00 / ff is told from "missing" by the symbol before it, which has to be the '
+             'month and not the weekday (a Monday of 2000 in BDZ would print as 03.01.-)', minimum=1)
+    import re
+    fb = ctx.fb
+    fn = fb.fn('ebusd::DateTimeDataType::readSymbols')
+    ctx.touch(fn)
+    ln = fn.P(1)
+    loops = [x for x in fn.all('ForStmt') if fn.nodes[x].get('inc') is not None]
+    n = 0
+    for f in loops:
+        body = fn.nodes[f].get('body')
+        if body is None:
+            continue
+        inside = set(fn.walk(body))
+        incs = set(fn.walk(fn.nodes[f]['inc']))
+        initn = set(fn.walk(fn.nodes[f]['init'])) if fn.nodes[f].get('init') is not None else set()
+        # variables that live across iterations: written inside the body, declared outside the loop statement
+        outer = [(nid, d) for nid, d, rhs, op, lhs in fn.assignments() if nid in inside and d and op != 'init' and
+                 not any(d2 == d and n2 in (inside | initn) for n2, d2, r2, o2, l2 in fn.assignments() if o2 == 'init')]
+        for i in fn.all('IfStmt'):
+            if i not in inside:
+                continue
+            ck = fn.key(fn.nodes[i]['cond'])
+            if '(%s == #4)' % ln not in ck or not re.search(r'\((\w+) == #2\)', ck):
+                continue
+            th = fn.nodes[i].get('then')
+            if th is None:
+                continue
+            n += 1
+            first = th
+            while fn.nodes[first]['k'] == 'CompoundStmt' and fn.nodes[first].get('ch'):
+                first = fn.nodes[first]['ch'][0]
+            try:
+                sb, si = fn.pos(first)
+            except Exception:
+                raise AnalysisBroken('C05.R20: the weekday statement is not in the flow graph')
+            bad = [nid for nid, d in outer if nid not in set(fn.walk(th)) and fn.reaches_point(sb, fn.pos(nid), incs, start_idx=si)]
+            ctx.ob('C05.R20', fn, i, not bad, 'weekday byte of a 4 byte date',
+                   'skipped without a store into a variable that lives across iterations: %s%s' % (
+                       not bad, '' if not bad else ' (reaches the store in line %d)' % fn.line_of(bad[0])))
+    if n < 1:
+        raise AnalysisBroken('C05.R20: the weekday skip of the 4 byte dates was not recognised')
+
+
 def run(ctx):
+    r20(ctx)
     r18(ctx)
     r19(ctx)
     import rules.common as _cm
